@@ -1,6 +1,9 @@
 """C06 — styles form a consistent algebra, round-trip through text, and hash consistently.
 
-Correspondence: Lean model (Model/ColorParse, Model/Style) vs rich.color.Color.parse / rich.style.Style, in-process.
+Correspondence: Lean model (Model/ColorParse, Model/Style) vs rich.color.Color.parse / rich.style.Style, in-process,
+over all code points: the model is run with the character tables of the running Python (`StrTables.real`, translated on
+every run by harness/gen/str_tables.py, compared entry by entry with the real str methods in section 0 of `run`); only
+strings containing GREEK CAPITAL SIGMA (context-dependent lower()) are answered `unmodelled`.
 Direct evaluation (3d): the executable statements of the theorems in Props/C06.lean on real Style objects,
 with oracles that do not use the model (keyword reconstruction, the documented spellings, docs/appendix colours).
 """
@@ -14,9 +17,10 @@ from lib_style import ATTRS
 
 PROPERTY = "C06"
 
-# CODE VARIANT FLAGS — which variant of the code the model is compared with (fields of `Variant` in
-# lean/RichModel/Model/ColorParse.lean).  1 = rich 9.10.0 as found, 0 = repaired = what /repo contains now
-# (fixes c34676b, a639ea2, cf948b2; the diffs under /verif/pending_fixes are their proposals).
+# CODE VARIANT FLAGS — which variant of the code the model is compared with (the seven fields of `StyleVariant` in
+# lean/RichModel/Model/ColorParse.lean, in this order).  1 = rich 9.10.0 as found, 0 = repaired = what /repo contains now
+# (fixes c34676b [F9], a639ea2 [F3-F6], cf948b2 [F26], c566893 [F30]; the diffs under /verif/pending_fixes were their
+# proposals).  All seven are 0: every repair has landed, nothing is left to flip.
 RGB_VALUEERROR = 0      # F9 (owned by C14): Color.parse("rgb(1,,2)") raises ValueError, not ColorParseError
 ADD_HASH = 0            # F3: Style.__add__ stores the right operand's hash
 FROM_COLOR_HASH = 0     # F4: Style.from_color hashes (color, bgcolor, None, None, None)
@@ -285,7 +289,7 @@ class Pools:
     def spec(self):
         r = self.rng
         link = self.link(wf=r.random() < 0.8)
-        while link == "":  # the empty link is outside the statement (see the assumptions)
+        while link == "":  # route-pair targets avoid link "": as found it broke the identity law (F30, flag EMPTY_LINK); since fix c566893 it is stored as None
             link = self.link()
         return (self.color(canon=r.random() < 0.8), self.color(canon=r.random() < 0.8), self.kw(), link)
 
@@ -457,7 +461,7 @@ def run(ctx):
         "hash(): modelled by the tuple that is hashed; equal tuples hash equally (Python guarantee); the harness compares hash equality with key equality",
         "str.isspace / \\s, str.isdecimal / \\d / int(), str.lower and the int() digit limit of the running Python are parameters of the model "
         "(tables translated on every run by harness/gen/str_tables.py, proved `Lawful` in Lean: real_tables_lawful); every table entry and every `Lawful` side "
-        "condition (agreement with the ASCII rules below 128, lower() idempotent, lower() creates no white space) is also validated on all 1,114,112 code points "
+        "condition (agreement with the ASCII rules below 128, lower() idempotent, lower() creates no white space) is also validated on all 1,112,064 code points (surrogates excluded) "
         "on every run, on the Lean tables (driver request tables_lawful) and on the real str methods",
         "str.lower() of a string containing GREEK CAPITAL SIGMA is context dependent (final-sigma rule): such requests are answered `unmodelled`; the direct evaluation still runs on them",
         "functools.lru_cache on Color.parse / Style.parse / Style.normalize is transparent (routes bypass it for Style.parse so that every object is fresh; the cached entry points are exercised by style_parse / normalize cases)",
@@ -836,7 +840,13 @@ MANIFEST = {
     "consistency, wf) over all code points (KELVIN SIGN, non-ASCII digits and white space, the int() 4300-digit limit), every entry of the "
     "character tables against the real str methods, plus the theorems' executable statements evaluated on real Style objects with "
     "model-independent oracles (keyword reconstruction, docs/source/appendix/colors.rst, dict/set behaviour).",
-    "note": "Partial: hash() itself is the Python runtime — modelled by the tuple that is hashed; assumption `equal tuples hash equally`, and the harness "
+    "note": "Code variant flags (1 = rich 9.10.0 as found, 0 = repaired, what /repo contains): RGB_VALUEERROR=0 (F9, owned by C14, fix c34676b), "
+    "ADD_HASH=0, FROM_COLOR_HASH=0, WITHOUT_COLOR_HASH=0, UPDATE_LINK_HASH=0 (F3-F6, fix a639ea2), UPDATE_LINK_DEF=0 (F26, fix cf948b2), "
+    "EMPTY_LINK=0 (F30, fix c566893). All of these defects are fixed in /repo: known_findings.txt has no `known:` line for C06 and the check prints no "
+    "KNOWN-FINDING lines. eq_hash / hash_from_fields need the four hash flags 0, parse_str_roundtrip needs UPDATE_LINK_DEF=0, add_null_left / "
+    "add_is_merge / add_respects_eq / empty_style_is_identity need EMPTY_LINK=0 (add_null_left_of_link holds in every variant for links other than ''); "
+    "every other theorem holds for every variant. "
+    "Partial: hash() itself is the Python runtime — modelled by the tuple that is hashed; assumption `equal tuples hash equally`, and the harness "
     "compares hash equality with key equality on every route pair. str.lower() of a string containing GREEK CAPITAL SIGMA is context dependent "
     "(final-sigma rule): answered `unmodelled` (counted) while the direct evaluation still runs on it. lru_cache on parse/normalize assumed "
     "transparent; NULL_STYLE modelled in its steady state; _link_id and _ansi not modelled. The text round trip is stated for links that are None "
